@@ -355,6 +355,16 @@ pub const CORPUS: &[&str] = &[
     "t<a/>u",
     "<a xmlns='u'><b xmlns=''/></a>",
     "<?pi d?><a/><!--c-->",
+    "<p:a xmlns:p='u' xmlns:q='u'></q:a>",
+    "<a xmlns='u' xmlns:q='u'></q:a>",
+    "<q:a xmlns='u' xmlns:q='u'></a>",
+    "<a xmlns:p='http://www.w3.org/XML/1998/namespace' p:id='  x   y '/>",
+    "<a xmlns:p='http://www.w3.org/XML/1998/namespace' p:id=' x '><b xml:id='x'/></a>",
+    "<a xml:id='x'><b xmlns:p='http://www.w3.org/XML/1998/namespace' p:id=' x '/></a>",
+    "<a xmlns:xml='zzz'/>",
+    "<a xmlns:xmlns='zzz'/>",
+    "<a xmlns:p=''><p:b/></a>",
+    "<a xmlns:xml='http://www.w3.org/XML/1998/namespace' xml:id='i'/>",
 ];
 
 const SNIPPETS: &[&str] = &[
